@@ -95,6 +95,8 @@ structure Report where
   msg : Str
   word : Bytes
   each : Bool
+  /-- is the word quoted in the message (`report_error`) or not (a message sent directly on the channel) -/
+  quoted : Bool
   deriving DecidableEq, Repr
 
 /-- `x as i<w>` for an unsigned `x < 2^w`: two's complement -/
